@@ -91,10 +91,21 @@ def m_chr(v):
 
 
 def m_next(it, *default):
+    from .interp import SymStopIteration
+
     interp = Interp.cur
-    if hasattr(type(it), "__next__") and interp.is_repo_func(type(it).__dict__.get("__next__")):
-        return interp.call(interp.getattr(it, "__next__"), [], {})
-    return next(it, *default)
+    nx = type(it).__dict__.get("__next__") if hasattr(type(it), "__next__") else None
+    try:
+        if nx is not None and interp.is_repo_func(nx):
+            return interp.call(interp.getattr(it, "__next__"), [], {})
+        try:
+            return next(it)
+        except StopIteration:
+            raise SymStopIteration()
+    except SymStopIteration:
+        if default:
+            return default[0]
+        raise
 
 
 def str_join(sep, items):
